@@ -77,12 +77,12 @@ def events (udp bw : Bool) (ops : List (List String)) : List TEvent := Id.run do
     | ["ping", id, _] =>
       let id := id.toNat?.getD 0
       owners := id :: owners
-      evs := evs ++ [.insert (if udp then siteOf "Conn.AsyncPing" "midHandlerContainer" else siteOf "Conn.AsyncPing" "tokenHandlerContainer") (200000 + id) id 0]
+      evs := evs ++ [.insert (if udp then siteOf "Conn.asyncPing" "midHandlerContainer" else siteOf "Conn.asyncPing" "tokenHandlerContainer") (200000 + id) id 0]
     | ["aping", id] =>
       -- the registration is a `handle` site: it ends with the pong or with the call of the returned closure
       let id := id.toNat?.getD 0
       owners := id :: owners
-      evs := evs ++ [.insert (if udp then siteOf "Conn.AsyncPing" "midHandlerContainer" else siteOf "Conn.AsyncPing" "tokenHandlerContainer") (200000 + id) id 0]
+      evs := evs ++ [.insert (if udp then siteOf "Conn.asyncPing" "midHandlerContainer" else siteOf "Conn.asyncPing" "tokenHandlerContainer") (200000 + id) id 0]
     | ["write", id, typ] =>
       let id := id.toNat?.getD 0
       owners := id :: owners
